@@ -15,3 +15,12 @@ package qos
 //@ func (m *Manager) SetSubscriberPolicy
 //@   trusted touches the QoS manager's own maps and kernel maps only
 //@   modifies nothing
+
+// ---- derived key (C06): qos_egress / qos_ingress are looked up with ip->daddr /
+// ip->saddr as loaded from the frame (bpf/qos_ratelimit.c), so the key word must
+// carry the address bytes in network order in memory (native marshalling; see
+// pkg/ebpf/verif_contracts.go).
+//@ func ipToKey
+//@   requires len(ip) == 4
+//@   modifies nothing
+//@   ensures result == ip[0] + 256*ip[1] + 65536*ip[2] + 16777216*ip[3]
